@@ -691,7 +691,8 @@ class BasicLexer(AbstractBasicLexer):
             t = None
             if not ignored or type_ in self.callback:
                 t = Token(type_, value, line_ctr.char_pos, line_ctr.line, line_ctr.column)
-            line_ctr.feed(value, type_ in self.newline_types)
+            # Always count newlines: newline_types is a textual heuristic that misses some spellings (\W, \D, [\x00-\x20], \012 ...)
+            line_ctr.feed(value)
             if t is not None:
                 t.end_line = line_ctr.line
                 t.end_column = line_ctr.column
